@@ -412,7 +412,7 @@ def ignoring_peer_case(ctx, rng, by):
     from paramiko.common import MSG_KEXINIT
 
     rp, op = rng.choice([(50, 30), (80, 25), (40, 60)])
-    if by == "packets":
+    if by in ("packets", "replies"):
         limits = (rp, 10 ** 9, op, 10 ** 9)
     else:
         limits = (10 ** 9, rp * 100, 10 ** 9, op * 100)
@@ -423,7 +423,11 @@ def ignoring_peer_case(ctx, rng, by):
         sent = 0
         while ts.is_alive() and sent < 20000:
             try:
-                tc._send_message(L.msg(2, ("raw", b"z" * 64)))
+                if by == "replies":
+                    # every packet provokes a reply: the subject keeps *writing* while its request is pending
+                    tc._send_message(L.msg(80, "pv-no@verif", True))
+                else:
+                    tc._send_message(L.msg(2, ("raw", b"z" * 64)))
             except Exception:
                 break
             sent += 1
@@ -446,6 +450,12 @@ def ignoring_peer_case(ctx, rng, by):
             if len(epoch) != rp + op - 1:
                 ctx.fail("dropped-at-wrong-point:packets", case, "server read %d packets in the epoch before the "
                          "fatal one, expected %d" % (len(epoch), rp + op - 1))
+        if by == "replies":
+            # whichever counter asked first, the request is up when the rp-th packet of the epoch has been read, and
+            # the allowance is counted in *received* packets — whatever the subject writes meanwhile
+            if len(epoch) > rp + op - 1:
+                ctx.fail("dropped-too-late:replies", case, "server read %d packets in the epoch, allowance ends at %d"
+                         % (len(epoch), rp + op - 1))
         ctx.dist("ignoring-peer:" + by)
     finally:
         tc.close()
@@ -488,6 +498,29 @@ def run(ctx):
                 kinds = {k for k, _ in ops[:i + 1]}
                 if ops[i][0] not in "oi":
                     ctx.fail("request-cleared-without-switch", {"limits": limits, "ops": ops}, "op %d" % i)
+        # … and: once a request is pending, the peer gets `op` more packets / `ob` more bytes, counted from the
+        # request (or from its own key switch), whatever we write in between
+        toks = req.split(" ")[5:]
+        pending, pk_since, by_since = False, 0, 0
+        for i, ((kind, _n), tok, fl) in enumerate(zip(ops, toks, flags)):
+            if fl == "E":
+                break
+            if kind == "r" and pending:
+                pk_since += 1
+                by_since += int(tok[1:])
+                if pk_since >= limits[2] or by_since >= limits[3]:
+                    ctx.fail("overflow-allowance-exceeded:" + ("interleaved-sends" if any(
+                        k == "s" for k, _ in ops[:i]) else "one-way"), {"limits": limits, "ops": ops[:i + 1],
+                                                                      "request": " ".join(req.split(" ")[:5] + toks[:i + 1])},
+                             "%d packets / %d bytes received since the request, allowance %d / %d, no error"
+                             % (pk_since, by_since, limits[2], limits[3]))
+                    break
+            if kind == "i":
+                pk_since, by_since = 0, 0
+            now = fl == "1"
+            if now and not pending:
+                pk_since, by_since = 0, 0
+            pending = now
     replies = ctx.driver("C10", reqs)
     if replies is not None:
         for req, rep, (flags, counters, limits, ops) in zip(reqs, replies, obs):
@@ -540,7 +573,7 @@ def run(ctx):
             f = rp_.split(" ")
             if [int(f[0]), int(f[1])] != [io, ii]:
                 ctx.disagree("compressor installs per key switch", dict(case, request=rq), [int(f[0]), int(f[1])], [io, ii])
-    for by in ("packets", "bytes"):
+    for by in ("packets", "bytes", "replies"):
         ctx.case(("e2e-ignoring", by), True)
         ignoring_peer_case(ctx, rng, by)
 
